@@ -11,23 +11,24 @@ func vfieldC12(name string, maxlen int) string {
 }
 
 // C12 rangeEnd: [key, rangeEnd(key,n)) selects exactly the keys whose first n fields equal key's.
+// Keys of 1..3 fields (so empty middle fields, fields that start with or consist of zero bytes and
+// trimmed trailing empties all occur) against other keys of 4 fields.
 //
-//symgo:harness prop=C12 tier=quick shards=16 timeout=240 bounds=key_of_n_in_1..2_fields(len_0..2,0..1);other_key_of_3_fields(len_0..2,0..1,0..1)
+//symgo:harness prop=C12 tier=quick shards=16 timeout=300 ttimeout=1700 bounds=key_of_n_in_1..3_fields(len_0..2,0..1,0..1);other_key_of_4_fields(len_0..2,0..1,0..1,0..1);all_byte_values
 func VerifC12RangeEnd() {
-	n := 1 + rt.Pick("n", 2)
-	kf := []string{vfieldC12("k0", 2), vfieldC12("k1", 1)}[:n]
+	n := 1 + rt.Pick("n", 3)
+	kf := []string{vfieldC12("k0", 2), vfieldC12("k1", 1), vfieldC12("k2", 1)}[:n]
 	rt.Assume(kf[n-1] != "") // callers pass keys with exactly n fields
 	key := ixkey.CompKey(kf...)
 	end := rangeEnd(key, n)
-	o := []string{vfieldC12("o0", 2), vfieldC12("o1", 1), vfieldC12("o2", 1)}
+	o := []string{vfieldC12("o0", 2), vfieldC12("o1", 1), vfieldC12("o2", 1), vfieldC12("o3", 1)}
 	ok := ixkey.CompKey(o...)
 	rt.Reach("computed")
+	rt.Observe("end", end)
 	same := true
 	for i := 0; i < n; i++ {
-		if o[i] != kf[i] {
-			same = false
-		}
+		same = rt.And(same, o[i] == kf[i])
 	}
-	inRange := key <= ok && ok < end
+	inRange := rt.And(key <= ok, ok < end)
 	rt.Assert("rangeend/iff-first-n-fields-equal", inRange == same)
 }
